@@ -86,6 +86,12 @@ theorem oset_mem (s : OSet) (y : Nat) :
    fun xs => OrdSet.mem_interUpdate s xs y, fun xs => OrdSet.mem_symUpdate s xs y, by simp [step]⟩
 
 open EdbVerif.OrdSet in
+/-- refinement: after ANY history the container holds exactly the keys of the
+    abstract set obtained by running the same history on membership predicates -/
+theorem oset_refines (ops : List Op) (y : Nat) : y ∈ run ops ↔ specRun ops y :=
+  OrdSet.mem_run ops y
+
+open EdbVerif.OrdSet in
 /-- insertion-order law: after any single operation the keys that survive keep
     their relative order and every key that was not present before comes after
     all of them (so re-adding a present key never moves it). -/
